@@ -357,11 +357,14 @@ class Item:
 
     def desugar_result_ctor_chains(self):
         """R8 (Result): `CALL.map(Ctor).unwrap_or(D)` -> `(match CALL { Ok(v) => Ctor(v), Err(_) => D })` and `CALL.map(Ctor).ok()` ->
-        `(match CALL { Ok(v) => Some(Ctor(v)), Err(_) => None })` - the std definitions of Result::map / unwrap_or / ok; CALL is a call `f(..)` without nested calls,
+        `(match CALL { Ok(v) => Some(Ctor(v)), Err(_) => None })`, `CALL.map(Ctor).map_err(|_| E)` -> `(match CALL { Ok(v) => Ok(Ctor(v)), Err(_) => Err(E) })` - the std definitions of Result::map / unwrap_or / ok; CALL is a call `f(..)` without nested calls,
         Ctor a constructor path (no closure)."""
         n = 0
         pat1 = re.compile(r"(\w+\([^()]*\))\s*\.map\((\w+(?:::\w+)+)\)\s*\.unwrap_or\(((?:[^()]|\([^()]*\))*)\)")
         self.text, k = pat1.subn(r"(match \1 { Ok(verif_v) => \2(verif_v), Err(_) => \3 })", self.text)
+        n += k
+        pat3 = re.compile(r"(\w+\([^()]*\))\s*\.map\((\w+(?:::\w+)+)\)\s*\.map_err\(\|_\w*\|\s*((?:[^()]|\([^()]*\))*)\)")
+        self.text, k = pat3.subn(r"(match \1 { Ok(verif_v) => Ok(\2(verif_v)), Err(_) => Err(\3) })", self.text)
         n += k
         pat2 = re.compile(r"(\w+\([^()]*\))\s*\.map\((\w+(?:::\w+)+)\)\s*\.ok\(\)")
         self.text, k = pat2.subn(r"(match \1 { Ok(verif_v) => Some(\2(verif_v)), Err(_) => None })", self.text)
